@@ -65,10 +65,14 @@ impl<'de> RandomAccessDeserializer<'de> for FixedSizeListDeserializer<'de> {
         if idx >= self.len {
             fail!("Out of bounds access");
         }
+        let (Some(start), Some(end)) = (idx.checked_mul(self.n), (idx + 1).checked_mul(self.n))
+        else {
+            fail!("Out of bounds access");
+        };
         visitor.visit_seq(ListItemDeserializer {
             item: self.item.as_ref(),
-            start: idx * self.n,
-            end: (idx + 1) * self.n,
+            start,
+            end,
         })
     }
 }
